@@ -32,7 +32,6 @@ Verdict(h, i, p, r) ==
 
 CodeAdd(h, i, p) ==
   /\ calls < MaxCalls
-  /\ Class(St, h, i, p) # "repeat"
   /\ LET r == CodeOutcome(St, h, i, p, KnownDeviations)
          c == Class(St, h, i, p)
      IN  /\ r.S2.nh <= MaxHandles
@@ -41,9 +40,9 @@ CodeAdd(h, i, p) ==
          /\ built' = [x \in 1..r.S2.nh |->
                         IF x <= nh
                         THEN (IF x = h /\ c = "append" /\ r.kind = "same" THEN Append(built[h], p) ELSE built[x])
-                        ELSE IF x = r.h2 THEN SubSeq(built[h], 1, i) \o <<p>>
+                        ELSE IF x = r.h2 /\ c # "repeat" THEN SubSeq(built[h], 1, i) \o <<p>>
                         ELSE ViewS(r.S2, x)]      \* intermediate handle created by a nested fork-out
-         /\ reply' = [op |-> "add", h |-> h, i |-> i, p |-> p, kind |-> r.kind, h2 |-> r.h2]
+         /\ reply' = [op |-> "add", h |-> h, i |-> i, p |-> p, kind |-> r.kind, h2 |-> r.h2, class |-> c]
          /\ hist' = Append(hist, [h |-> h, i |-> i, p |-> p, kind |-> r.kind, h2 |-> r.h2, class |-> c])
   /\ calls' = calls + 1
 
